@@ -262,3 +262,9 @@ pub proof fn lemma_shr1_or(w: {I}, cw: {I}, c: bool, p: {I})
         if ju >= p { lemma_wbit_one((ju - p) as {I}); lemma_wbit_zero((ju - p) as {I}); }
     }
 }
+pub proof fn lemma_not_zero_max(v: {I})
+    ensures (!v == 0) == (v == {I}::MAX), (!v == {I}::MAX) == (v == 0)
+{
+    assert((!v == 0) == (v == {I.max})) by(bit_vector);
+    assert((!v == {I.max}) == (v == 0)) by(bit_vector);
+}
